@@ -81,29 +81,32 @@ pub fn choice(input: Input<'_>) -> ParserResult<'_, ASN1Type> {
                     skip_ws_and_comments(choice_option),
                     optional_comma,
                 )),
-                opt(terminated(
-                    extension_marker,
-                    opt(skip_ws_and_comments(char(COMMA))),
-                )),
-                opt(map(
-                    many0(alt((
-                        map(
-                            terminated(skip_ws_and_comments(choice_option), optional_comma),
-                            |extension| vec![extension],
-                        ),
-                        terminated(
-                            in_brackets(in_brackets(many1(terminated(
-                                skip_ws_and_comments(choice_option),
+                // extension additions are looked for behind an extension marker only
+                opt(pair(
+                    terminated(extension_marker, opt(skip_ws_and_comments(char(COMMA)))),
+                    map(
+                        many0(alt((
+                            map(
+                                terminated(skip_ws_and_comments(choice_option), optional_comma),
+                                |extension| vec![extension],
+                            ),
+                            terminated(
+                                in_brackets(in_brackets(many1(terminated(
+                                    skip_ws_and_comments(choice_option),
+                                    optional_comma,
+                                )))),
                                 optional_comma,
-                            )))),
-                            optional_comma,
-                        ),
-                    ))),
-                    |extensions| extensions.into_iter().flatten().collect(),
+                            ),
+                        ))),
+                        |extensions| extensions.into_iter().flatten().collect(),
+                    ),
                 )),
             )),
         ),
-        |m| ASN1Type::Choice(m.into()),
+        |(root, extension)| {
+            let (marker, additions) = extension.unzip();
+            ASN1Type::Choice((root, marker, additions).into())
+        },
     )
     .parse(input)
 }
